@@ -45,6 +45,7 @@ def dispatch (op : String) (args : List String) (obs : String) : String × Strin
   | "spred" => c03spred args obs
   | "u8" => c07u8 args obs
   | "u8r" => c07u8r args obs
+  | "rdoc" => c07rdoc args obs
   | "wr" => c06wr args obs
   | "wrc" => c06wr args obs   -- destination churning the byte pool: same model
   | "wm" => c06wm args obs
@@ -65,6 +66,7 @@ def dispatch (op : String) (args : List String) (obs : String) : String × Strin
   | "dbgdl" => c11dbgdl args obs
   | "fw" => c12cw args obs
   | "sr" => c12sr args obs
+  | "srz" => c12srz args obs
   | "fl" => c12fl args obs
   | "ind" => c12ind args obs
   | "indr" => c12indr args obs
